@@ -3,6 +3,7 @@ import IncrVerif.Proofs.NestH68
 import IncrVerif.Proofs.NestH75
 import IncrVerif.Proofs.NestH118
 import IncrVerif.Proofs.NestH119
+import IncrVerif.Proofs.NestH123
 /-!
 # C03 for NESTED binds (fragment F2) — binds created inside a bind's scope
 
@@ -38,6 +39,11 @@ non-stale change detector are the image `ElabOf2` of the template for the curren
 (`NestH60–62`): with `GenOK2` the stored value of every necessary top-level node is `den2`.  `closure_elab2` (`NestH69–70`): the closure run registers exactly the image.  `lc_gen2'`,
 `stabilise_gen2'`, `step_gen2`, `stabilise_reads_den2'` (`NestH72–75`): `GenOK2` is kept by every step of a drain, by `stabilise`, by every API action; after a `stabilise` every in-use
 observer reads `den2` of its node.  `QG2 := QI2 ∧ GenOK2`, `step_F2`, `history_F2`, `history_stabilise_F2` (`NestH75`).
+TEXT-LEVEL REFERENCE SEMANTICS (`NestH113–117,120–123`): `Spec.denoteTop` (`Spec/Denote.lean`, the oracle of C01/C07: it looks only at the program text and the current variable values,
+nested binds by `denoteTemplate`) AGREES with `den2`: `ProgOK p env s` (the top-level nodes of `s` are the images of the creation instructions of `p`), `agree_den2_denote`, `agree_large`
+(both directions, for all large fuel; hypothesis `ZipPair env`: `env.fn fnZip [a, b] = .pair a b`, true for every `Defs.toEnv`), `progOK_history` (`ProgOK (progOf env po acts) env s` for
+every state reached by a history of F2; `shadow_step_prog`: `progOf` is what `Spec.Shadow.step` builds), and `history_stabilise_denote`: at every `stabilise` of a history of F2 every
+in-use observer reads `Spec.denoteTop (progOf … prefix) f j` of its handle `j`, for all large `f`.
 NON-VACUITY (`NestH67`): `exHistN` — a history with a nested bind whose INNER lhs changes (second stabilise), whose OUTER lhs changes (third), and a fresh inner record (fourth).
 
 ## VALIDATION BY EXECUTION (before proving): Boolean versions of `DInv`, `OrderInv`, `StepRelB`, `StepL2`, `All2` (lexicographic scope-path rank), `GInv2` at rest, `GenOK2`,
@@ -66,9 +72,11 @@ closure variants run — so it cannot be bounded from the program text; node cou
 ## ASSUMED / NOT PROVED HERE
 * Closures referring to YOUNGER top-level nodes (created after the bind, before the closure runs; in Rust only through a shared cell) are outside fragment F2.  For them the PURE
   theorems apply with the step contract as an explicit hypothesis (`LcStepsOK2 env Aux`: `drainHeap_valuesB2`, `drain_onceB2`); the Boolean versions of `DInv`, `OrderInv`, `StepRelB`,
-  `StepL2` hold at every drain state of 200 generated histories with such references (until the history panics: `cyclic` when the younger node depends on the bind).  The ghost-rank
-  design was chosen so that this extension only needs a different rank at top-level creation.  Kernel-checked example (`NestH119`): `exY` — a closure over a variable created AFTER the
-  bind: `DInv` holds where the change detector is about to run (rank: the younger variable BELOW the change detector), its run satisfies `StepL`, `stepL2_inv` gives `DInv` again.  FINDING FN1 (/tmp/nested/FINDINGS.md): a bind whose closure returns the bind's OWN main
+  `StepL2` hold at every drain state of 200 generated histories with such references (until the history panics: `cyclic` when the younger node depends on the bind).  The ghost rank
+  removes the index-order obstacle (a younger node can be ranked below an older change detector); an END-TO-END proof additionally needs a conditional operand condition
+  (`top[k]? = some r → rk r < rk lc`), a bound on the handles a closure mentions, and rank INSERTION at top-level creation — NOT DONE.  Kernel-checked example (`NestH119`): `exY` — a closure over a variable created AFTER the
+  bind: `DInv` holds where the change detector is about to run (rank: the younger variable BELOW the change detector), its run satisfies `StepL`, `stepL2_inv` gives `DInv` again.
+  FINDING FN1 (/tmp/nested/FINDINGS.md): a bind whose closure returns the bind's OWN main
   node panics `cyclic` in the model but `RefCell already borrowed @ node.rs:1888` in the implementation.
 * Outside the fragment: `map_ref`, `map_with_old`, expert nodes, user cutoffs, effects, handlers inside programs with binds; release mode (`cfg.debug = false`).
 -/
@@ -199,6 +207,21 @@ theorem adjustHeights_total {env : Env} {rk : Nat → Nat} {N oc op' fuel : Nat}
 example : ValidIdx 0 0 0 exHistN ∧ HasRoom 128 fuelDefault (runS nEnv exHistN (State.init 128 true) #[]).2 ∧
     ∃ s tk, Quiet.runActions nEnv exHistN (State.init 128 true) #[] = .ok (s, tk) ∧ QT nEnv 128 s ∧ QG2 nEnv s :=
   ⟨exHistN_idx, exHistN_room, exHistN_total⟩
+
+/-- **reads = the TEXT-LEVEL reference semantics.** At every `stabilise` of a history of fragment F2 that runs from the initial state, every in-use observer reads
+`Spec.denoteTop` of its handle in the program text of the prefix (for all large fuel). -/
+theorem history_stabilise_denote {env : Env} {N : Nat} {d : Bool} {as bs : List Action} {s : State} {tk : Array Nat}
+    (po : Nat → Bool) (Z : ZipPair env)
+    (hH : HistF2 env 0 (as ++ Action.stabilise :: bs))
+    (h : Quiet.runActions env (as ++ Action.stabilise :: bs) (State.init N d) #[] = .ok (s, tk)) :
+    ∃ s1 tk1 s2, Quiet.runActions env as (State.init N d) #[] = .ok (s1, tk1) ∧
+      (stabilise env fuelDefault).run.run s1 = (.ok (), s2) ∧ QG2 env s2 ∧
+      ProgOK (progOf env po as) env s2 ∧
+      (∀ (o : Nat) (ob : ObsRec), s2.observers[o]? = some ob → ob.state = .inUse →
+        ∃ v j, s2.tryGetValue env o = .ok v ∧ s2.top[j]? = some ob.node ∧
+          ∃ F, ∀ f, F ≤ f → IncrVerif.Spec.denoteTop (progOf env po as) f j = some v) ∧
+      Quiet.runActions env bs s2 tk1 = .ok (s, tk) :=
+  NestH.history_stabilise_denote po Z hH h
 
 /-- closures referring to a YOUNGER top-level node: the pure theorems apply (kernel-checked on a reached state) -/
 example : DInv yEnv exY (some 1) ∧ (∃ br br', StepL yEnv 1 0 br br' (some 2) exY exY') ∧ DInv yEnv exY' (some 2) ∧
